@@ -15,9 +15,19 @@ KINDS7 = [('or', None, None), ('and', None, None), ('or', 'Exponential', None), 
           ('defense', None, 0), ('defense', None, 0.5), ('defense', None, 1)]
 
 
+KINDS7C = [(t, 'Composite' if ttc == 'Exponential' else ttc, st) for t, ttc, st in KINDS7]
+KINDS_COMP = [('or', 'Composite', None), ('and', 'Composite', None), ('or', 'CompositeRight', None)]
+
+
 def ttc_dict(name):
     if name is None:
         return None
+    if name in ('Composite', 'CompositeRight'):
+        # an arithmetic expression over distributions, as the MAL compiler emits it for
+        # [Exponential(0.1) + Exponential(0.2)] / [2 * Exponential(0.1)]: no top-level 'name'
+        if name == 'Composite':
+            return {'type': 'addition', 'lhs': ttc_dict('Exponential'), 'rhs': ttc_dict('Exponential')}
+        return {'type': 'multiplication', 'lhs': {'type': 'number', 'value': 2.0}, 'rhs': ttc_dict('Exponential')}
     args = {'Exponential': [0.1], 'Bernoulli': [0.5]}.get(name, [])
     return {'type': 'function', 'name': name, 'arguments': args}
 
@@ -35,8 +45,36 @@ def make_nodes(kinds):
     return nodes
 
 
-def analyse_all_orders(kinds, edge_sets, orders, stats, reverse_adj=False):
-    """for each edge set: run the real analysis under every storage order of graph.nodes"""
+def ttc_kind(ttc):
+    """TTC dict of a real node -> the name the reference uses ('Composite' for an arithmetic expression
+    that contains a distribution)"""
+    if not isinstance(ttc, dict):
+        return None
+    if 'name' in ttc:
+        return ttc['name']
+
+    def has_dist(e):
+        if not isinstance(e, dict):
+            return False
+        if 'name' in e:
+            return e['name'] not in ('Enabled', 'Disabled')
+        return has_dist(e.get('lhs')) or has_dist(e.get('rhs'))
+    return 'Composite' if has_dist(ttc) else None
+
+
+def _flip(nodes, kinds, back):
+    for nd, (typ, _ttc, st) in zip(nodes, kinds):
+        if typ == 'defense':
+            nd.defense_status = float(st) if back else (1.0 - float(st))
+        if typ in ('exist', 'notExist'):
+            nd.existence_status = bool(st) if back else (not st)
+
+
+def analyse_all_orders(kinds, edge_sets, orders, stats, reverse_adj=False, pre='fresh'):
+    """for each edge set: run the real analysis under every storage order of graph.nodes.
+    pre: labels the 'or'/'and' steps carry when the analysis starts - 'fresh' (the default True/True),
+    'false' (all False, e.g. loaded from a file) or 'flipped' (left behind by an analysis of the same graph
+    made while every defense / existence status had the opposite value)."""
     from maltoolbox.attackgraph import AttackGraph
     from maltoolbox.attackgraph.analyzers.apriori import calculate_viability_and_necessity
     n = len(kinds)
@@ -60,6 +98,16 @@ def analyse_all_orders(kinds, edge_sets, orders, stats, reverse_adj=False):
                 nd.is_viable, nd.is_necessary = True, True
             g.nodes = [nodes[i] for i in order]
             try:
+                if pre == 'false':
+                    for nd in nodes:
+                        if nd.type in ('or', 'and'):
+                            nd.is_viable, nd.is_necessary = False, False
+                elif pre == 'flipped':
+                    _flip(nodes, kinds, False)
+                    try:
+                        calculate_viability_and_necessity(g)
+                    finally:
+                        _flip(nodes, kinds, True)
                 calculate_viability_and_necessity(g)
             except RecursionError:
                 viols.append(common.Violation('analysis_recursion', 'analysis does not terminate',
@@ -78,9 +126,11 @@ def analyse_all_orders(kinds, edge_sets, orders, stats, reverse_adj=False):
                 break
             if (list(got[0]), list(got[1])) != (want[0], want[1]):
                 viols.append(common.Violation(
-                    'not_greatest_fixed_point:' + _aspect(want, got, kinds) + _shape(edges),
-                    'labels differ from the greatest fixed point of the equations',
-                    case={'kinds': kinds, 'edges': edges, 'order': order},
+                    ('not_greatest_fixed_point:' if pre == 'fresh' else f'depends_on_earlier_labels:{pre}:') +
+                    _aspect(want, got, kinds) + _shape(edges) + _comp(kinds),
+                    'labels differ from the greatest fixed point of the equations' +
+                    ('' if pre == 'fresh' else f' when the steps carried {pre} labels before the analysis'),
+                    case={'kinds': kinds, 'edges': edges, 'order': order, 'pre': pre},
                     expected=want, observed=got))
                 break
         stats['graphs'] = stats.get('graphs', 0) + 1
@@ -96,6 +146,10 @@ def _aspect(want, got, kinds):
         if want[1][i] != got[1][i]:
             return f'necessity_of_{kinds[i][0]}'
     return 'none'
+
+
+def _comp(kinds):
+    return ':composite_ttc' if any(str(k[1]).startswith('Composite') for k in kinds) else ''
 
 
 def _shape(edges):
@@ -117,11 +171,12 @@ def noself_edge_sets(n):
 
 @common.job
 def _job(job):
-    kinds, n, lo, hi, rev = job
+    kinds, n, lo, hi, rev = job[:5]
+    pre = job[5] if len(job) > 5 else 'fresh'
     stats = {}
     orders = list(itertools.permutations(range(n)))
     es = noself_edge_sets(n) if lo == 'noself' else all_edge_sets(n, lo, hi)
-    vs = analyse_all_orders(kinds, es, orders, stats, rev)
+    vs = analyse_all_orders(kinds, es, orders, stats, rev, pre)
     return stats, [v.to_json() for v in vs[:20]]
 
 
@@ -153,6 +208,58 @@ def _job_selfcheck3(job):
             raise RuntimeError(f'reference self-check failed: {kinds} {edges} brute={b} gfp={g}')
         cnt += 1
     return cnt
+
+
+# ---- part C: long chains and wide fans (the worklist must not depend on the interpreter's recursion limit)
+
+def deep_cases():
+    out = []
+    for n in (1500, 6000):
+        for root in (('defense', None, 1), ('defense', None, 0), ('exist', None, False), ('notExist', None, False)):
+            for step in ('or', 'and'):
+                out.append(('chain', n, root, step))
+        out.append(('ladder', n, ('defense', None, 1), 'and'))
+    return out
+
+
+@common.job
+def _job_deep(job):
+    from maltoolbox.attackgraph import AttackGraph
+    from maltoolbox.attackgraph.analyzers.apriori import calculate_viability_and_necessity
+    shape, n, root, step = job
+    kinds = [root] + [(step, None, None)] * n
+    parents = [[]] + [[i] for i in range(n)]
+    if shape == 'ladder':
+        # every step also has the root as a parent
+        parents = [[]] + [[0]] + [[i, 0] for i in range(1, n)]
+    nodes = make_nodes(kinds)
+    g = AttackGraph()
+    for nd in nodes:
+        g.add_node(nd)
+    for i, ps in enumerate(parents):
+        for p in ps:
+            nodes[p].children.append(nodes[i])
+            nodes[i].parents.append(nodes[p])
+    want = gfp.gfp(kinds, parents)
+    viols = []
+    case = {'shape': shape, 'length': n, 'root': list(root), 'step': step, 'deep': True}
+    for rev in (False, True):
+        for nd in nodes:
+            nd.is_viable, nd.is_necessary = True, True
+        g.nodes = list(reversed(nodes)) if rev else list(nodes)
+        try:
+            calculate_viability_and_necessity(g)
+        except RecursionError:
+            viols.append(common.Violation('long_chain:recursion_error', f'the analysis raises RecursionError on a {shape} of {n} steps',
+                                          case=case).to_json())
+            break
+        got = ([nd.is_viable for nd in nodes], [nd.is_necessary for nd in nodes])
+        if (got[0], got[1]) != (want[0], want[1]):
+            k = next(i for i in range(n + 1) if (got[0][i], got[1][i]) != (want[0][i], want[1][i]))
+            viols.append(common.Violation('long_chain:not_greatest_fixed_point', f'labels of a {shape} of {n} steps are wrong from step {k} on',
+                                          case=case).to_json())
+            break
+    return {'analyses': 2, 'graphs': 1, 'deep_graphs': 1, 'nontrivial': 1}, viols
 
 
 # ---- part B: graphs generated from languages and models, every asset insertion order
@@ -211,7 +318,7 @@ def _job_generated(job):
                 if first is None:
                     first = labels
                     idx = {id(n): k for k, n in enumerate(g.nodes)}
-                    kinds = [(n.type, n.ttc.get('name') if isinstance(n.ttc, dict) else None,
+                    kinds = [(n.type, ttc_kind(n.ttc),
                               (float(n.defense_status) if n.type == 'defense' else n.existence_status)) for n in g.nodes]
                     parents = [[idx[id(p)] for p in n.parents] for n in g.nodes]
                     want = gfp.gfp(kinds, parents)
@@ -242,8 +349,8 @@ def run(tier, seed):
                 'EVERY storage order of graph.nodes (the schedule of the worklist algorithm); a state = one '
                 '(graph, order) analysis; non-trivial = graphs whose greatest fixed point labels some node false. Part B: attack graphs generated from '
                 'three languages x every model up to the bound x {default, all-off, all-on defenses} x EVERY asset insertion order')
-    res.assumptions = ['a TTC counts as a probability distribution iff it is a named function other than Enabled/Disabled; '
-                       'arithmetic TTC expressions are outside the alphabet',
+    res.assumptions = ['a TTC counts as a probability distribution iff it is a named function other than Enabled/Disabled '
+                       'or an arithmetic expression with such a function as an operand',
                        'kind multisets are enumerated sorted: all n! storage orders and all edge sets are explored, '
                        'which covers every relabelling (edge insertion order is additionally reversed in a second pass)']
     _validate_reference(res)
@@ -256,6 +363,22 @@ def run(tier, seed):
         jobs.append((list(kinds), 3, 0, None, False))
     for kinds in itertools.combinations_with_replacement(KINDS7, 3):
         jobs.append((list(kinds), 3, 0, None, True))
+    # arithmetic TTC expressions over distributions (no top-level name)
+    for n in (1, 2):
+        for kinds in itertools.product(KINDS16 + KINDS_COMP, repeat=n):
+            if any(k in KINDS_COMP for k in kinds):
+                jobs.append((list(kinds), n, 0, None, False))
+    for kinds in itertools.combinations_with_replacement(KINDS7C, 3):
+        if any(k[1] == 'Composite' for k in kinds):
+            jobs.append((list(kinds), 3, 0, None, False))
+    # the analysis is run on steps that already carry labels: all False, or those of an analysis made
+    # while every defense / existence status had the opposite value
+    for pre in ('false', 'flipped'):
+        for n in (1, 2):
+            for kinds in itertools.product(KINDS16, repeat=n):
+                jobs.append((list(kinds), n, 0, None, False, pre))
+        for kinds in itertools.combinations_with_replacement(KINDS7, 3):
+            jobs.append((list(kinds), 3, 0, None, False, pre))
     # n = 4, five kinds, every edge set without self-loops (mask over the 12 off-diagonal pairs)
     for kinds in itertools.combinations_with_replacement(KINDS5, 4):
         jobs.append((list(kinds), 4, 'noself', None, False))
@@ -268,6 +391,10 @@ def run(tier, seed):
     for stats, viols in common.pmap(_job, jobs, chunksize=4):
         res.merge_counts(stats)
         res.add_violations(viols)
+    for stats, viols in common.pmap(_job_deep, common.rotate(deep_cases(), seed)):
+        res.merge_counts(stats)
+        res.add_violations(viols)
+    res.bounds['deep'] = 'chains / ladders of 1500 and 6000 or- / and-steps below each kind of root, both storage orders'
     gjobs = []
     for name in _partb_langs():
         n = len(_partb_models(name, tier))
@@ -296,10 +423,13 @@ def run(tier, seed):
 def replay(path):
     j = json.load(open(path))
     c = j['case']
+    if c.get('deep'):
+        import sys
+        return common.rerun(PROP, path, sys.modules[__name__])
     kinds = [tuple(k) for k in c['kinds']]
     edges = [tuple(e) for e in c['edges']]
     orders = list(itertools.permutations(range(len(kinds))))
-    vs = analyse_all_orders(kinds, [edges], orders, {})
+    vs = analyse_all_orders(kinds, [edges], orders, {}, pre=c.get('pre', 'fresh'))
     for v in vs:
         print('reproduced:', v.key, v.what, v.expected, v.observed)
     if vs:
